@@ -50,19 +50,48 @@ def queries(p):
     return out
 contents = ["x = 1\n", "def f():\n    return 1\n", "from a import x\ny = x\n", "import pkg.m\nz = pkg.m\n", "from pkg import m\n", "class K:\n    attr = 2\n"]
 paths = ["a.py", "b.py", "c.py", "pkg/__init__.py", "pkg/m.py", "pkg/n.py"]
+RANDOM_CONTENTS = ["x = 1\n", "def f():\n    return 1\n", "class K:\n    attr = 2\n", "import os\nsep = os.sep\n", "v = [1, 2]\nw = v\n", "class L(object):\n    def m(self):\n        return self\n"]
+
+
+def _content(rng, path):
+    # random histories use self-contained modules only: cross-module inference is order dependent in two known ways (fixed scenarios `self_import` and
+    # `import_of_missing_module_appears_later`), which would otherwise dominate and hide other families; cross-module coherence is covered by scenarios
+    return rng.choice(RANDOM_CONTENTS)
+
+
+def _content_unused(rng, path):
+    """a module is never given content that imports its own package (self-referential inference is order dependent in rope: recorded as a known
+    finding through the fixed scenario `self_import`, and excluded from the random domain so that the exploration can see other families)"""
+    c = rng.choice(contents)
+    if path.startswith("pkg") and "pkg" in c:
+        return contents[0]
+    return c
+
+
+def _would_overwrite(ch, undo):
+    """undoing / redoing a move whose target path has meanwhile been re-created would overwrite that file (known finding of C11: a move onto an
+    existing file silently replaces it); such steps are left out of the random histories"""
+    from rope.base import change
+    if isinstance(ch, change.ChangeSet):
+        return any(_would_overwrite(c, undo) for c in ch.changes)
+    if isinstance(ch, change.MoveResource):
+        return (ch.resource if undo else ch.new_resource).exists()
+    return False
+
+
 def ops(rng, p, root):
     kind = rng.choice(["write", "write", "create", "remove", "move", "movepkg", "ext_write", "ext_remove", "ext_create", "undo", "redo", "query"])
     try:
         if kind == "write":
             f = rng.choice(sorted(p.get_files(), key=lambda r: r.path) or [None])
-            if f: f.write(rng.choice(contents))
+            if f: f.write(_content(rng, f.path))
         elif kind == "create":
             path = rng.choice(paths)
             d = os.path.dirname(path)
             if d and not p.get_folder(d).exists(): p.root.create_folder(d)
             if not p.get_file(path).exists():
                 parent = p.get_folder(d) if d else p.root
-                parent.create_file(os.path.basename(path)).write(rng.choice(contents))
+                parent.create_file(os.path.basename(path)).write(_content(rng, path))
         elif kind == "remove":
             f = rng.choice(sorted(p.get_files(), key=lambda r: r.path) or [None])
             if f: f.remove()
@@ -78,17 +107,17 @@ def ops(rng, p, root):
             fs = sorted(p.get_files(), key=lambda r: r.path)
             if fs:
                 f = rng.choice(fs); time.sleep(0.01)
-                open(f.real_path, "w").write(rng.choice(contents) + "# %d\n" % rng.randrange(10**6)); p.validate()
+                open(f.real_path, "w").write(_content(rng, f.path) + "# %d\n" % rng.randrange(10**6)); p.validate()
         elif kind == "ext_remove":
             fs = sorted(p.get_files(), key=lambda r: r.path)
             if fs: os.remove(rng.choice(fs).real_path); p.validate()
         elif kind == "ext_create":
             path = os.path.join(root, rng.choice(["a.py", "b.py", "c.py"]))
-            if not os.path.exists(path): open(path, "w").write(rng.choice(contents)); p.validate()
+            if not os.path.exists(path): open(path, "w").write(_content(rng, path)); p.validate()
         elif kind == "undo":
-            if p.history.undo_list: p.history.undo()
+            if p.history.undo_list and not _would_overwrite(p.history.undo_list[-1], True): p.history.undo()
         elif kind == "redo":
-            if p.history.redo_list: p.history.redo()
+            if p.history.redo_list and not _would_overwrite(p.history.redo_list[-1], False): p.history.redo()
         elif kind == "query":
             queries(p)
     except (exceptions.RopeError, NotImplementedError, OSError) as e:
@@ -186,6 +215,9 @@ def _undo(p, root):
 
 
 SCENARIOS = {
+    "self_import": [_w("pkg/__init__.py", ""), _rw("pkg/m.py", "import pkg.m\nz = pkg.m\n"), _q, _rw("pkg/m.py", "import pkg.m\nz = pkg.m\nq = 1\n")],
+    "import_of_missing_module_appears_later": [_rw("b.py", "from a import x\ny = x\n"), _q, _w("a.py", "x = 1\n")],
+    "import_of_missing_module_created_via_rope": [_rw("b.py", "from a import x\ny = x\n"), _q, _rw("a.py", "x = 1\n")],
     "move_to_ignored_name": [_w("old.py", "x = 1\n"), _w("keep.py", "y = 2\n"), _q, _mv("old.py", "old.py~"), _q, _undo, _q, _mv("old.py", "old.pyc")],
     "package_gains_submodule_via_rope": [_w("pkg/__init__.py", ""), _w("pkg/one.py", "a = 1\n"), _w("main.py", "from pkg import extra\nimport pkg\nv = pkg\n"), _q,
                                          _rw("pkg/extra.py", ""), _q, _rw("pkg/more.py", "")],
